@@ -208,11 +208,11 @@ class Interp(StmtMixin, ObjMixin):
         ctx = self.ctx
         ctx.pure_depth += 1
         ctx.solver.push()
+        ctx.light.push()
         saved_len = len(ctx.pc)
         try:
             if assuming is not None:
-                ctx.solver.add(assuming)
-                ctx.pc.append(assuming)
+                ctx.assume(assuming)
             try:
                 return True, thunk()
             except Impure:
@@ -222,7 +222,12 @@ class Interp(StmtMixin, ObjMixin):
         finally:
             del ctx.pc[saved_len:]
             ctx.solver.pop()
+            ctx.light.pop()
             ctx.pure_depth -= 1
+            if ctx.pure_depth == 0 and ctx._deferred:
+                d, ctx._deferred = ctx._deferred, []
+                for fact in d:
+                    ctx.assume(fact)
 
     def merge_values(self, cond, a, b):
         """If(cond, a, b) for mergeable scalar values, else None."""
@@ -524,6 +529,12 @@ class Interp(StmtMixin, ObjMixin):
         if len(node.generators) == 1 and not node.generators[0].ifs:
             g = node.generators[0]
             it = self.eval(g.iter, fr)
+            if isinstance(it, Obj) and not isinstance(it, SArr):
+                m = self.special(it, '__iter__')
+                if m is not None:
+                    r = self.call(m, [], {})
+                    if isinstance(r, SArr):
+                        it = r
             if isinstance(it, SArr) and not isinstance(it.length, int):
                 return self.map_symbolic(it, g.target, node.elt, fr)
         out = []
@@ -916,9 +927,15 @@ class Interp(StmtMixin, ObjMixin):
             raise Unsupported('substring test on symbolic string')
         if isinstance(container, (list, tuple, set, frozenset, dict, range)) or hasattr(container, '__contains__'):
             if isinstance(item, SymEnum):
+                # a symbolic member always denotes one of the class's members: if each of them is in the
+                # container the answer is True without asking the solver
+                hits = [any(self.compare('==', x, m) is True for x in container) for m in item.cls.members]
+                if all(hits):
+                    return True
                 r = False
-                for x in container:
-                    r = self.or_(r, self.compare('==', x, item))
+                for m, hit in zip(item.cls.members, hits):
+                    if hit:
+                        r = self.or_(r, item.ord == m.index)
                 return r
             if is_sym(item):
                 if isinstance(container, range):
